@@ -1,11 +1,251 @@
-//! Gen/Runtime.lean: constants of the runtime entry point (C05): `LIBCNB_SUPPORTED_BUILDPACK_API` from libcnb/src/lib.rs.
+//! Gen/Runtime.lean (C05): constants and the environment reads of the runtime entry point.
+//!  * `supportedApi`        <- `LIBCNB_SUPPORTED_BUILDPACK_API` of libcnb/src/lib.rs
+//!  * `contextTargetReads`  <- `fn context_target` of libcnb/src/runtime.rs: every `env::var("NAME")` read in source order
+//!                             together with what is done with its result
+//!  * `buildpackDirRead`    <- `fn read_buildpack_dir`
+//! A read has one of three *unconditional* shapes (normal forms; `std::env::var` = `env::var`, `Error::X` = `|e| Error::X(e)`,
+//! parentheses and type ascriptions on the `let` do not matter):
+//!     env::var(NAME).map_err(Error::X)?            -> .required X     (unset or not Unicode => the phase fails with X)
+//!     env::var(NAME).ok()                          -> .optionalOk
+//!     env::var(NAME).unwrap_or_default() | .unwrap_or(<text literal>) | .unwrap_or_else(|_| <text literal>) -> .defaulted <text>
+//! Everything else — a requirement that depends on the value of another variable (`or_else(.. cond.then(..) ..)`, `if`, `match`),
+//! a statement in `context_target` that is not such a `let`, an `env::var` / `var_os` / `vars` read anywhere in runtime.rs that
+//! is not one of the recognised ones, a call of `context_target()` / `read_buildpack_dir()` whose error is not propagated
+//! (`?`, possibly after `.inspect_err(..)`; `.and_then(..)`) — is reported as TIE-BROKEN: the model's `contextTarget`
+//! interprets the generated list and has no term for a conditional requirement.
 use crate::*;
 use std::fmt::Write as _;
+use syn::visit::Visit;
+
+enum Use { Required(String), OptionalOk, Defaulted(String) }
+
+fn peel(e: &syn::Expr) -> &syn::Expr {
+    match e { syn::Expr::Paren(p) => peel(&p.expr), syn::Expr::Group(g) => peel(&g.expr), _ => e }
+}
+fn path_segs(e: &syn::Expr) -> Option<Vec<String>> {
+    if let syn::Expr::Path(p) = peel(e) { if p.qself.is_none() { return Some(p.path.segments.iter().map(|s| s.ident.to_string()).collect()); } }
+    None
+}
+/// `env::<what>` / `std::env::<what>`
+fn is_env_fn(segs: &[String], what: &[&str]) -> bool {
+    let n = segs.len();
+    n >= 2 && segs[n - 2] == "env" && what.contains(&segs[n - 1].as_str()) && (n == 2 || (n == 3 && segs[0] == "std"))
+}
+/// `env::var("NAME")` -> NAME
+fn env_var_call(e: &syn::Expr) -> Option<String> {
+    if let syn::Expr::Call(c) = peel(e) {
+        if is_env_fn(&path_segs(&c.func)?, &["var"]) && c.args.len() == 1 { return lit_str(peel(&c.args[0])); }
+    }
+    None
+}
+/// `Error::X` or `|e| Error::X(e)` -> X
+fn error_ctor(e: &syn::Expr) -> Option<String> {
+    let variant = |segs: Vec<String>| { let n = segs.len(); (n >= 2 && segs[n - 2] == "Error").then(|| segs[n - 1].clone()) };
+    match peel(e) {
+        syn::Expr::Path(_) => variant(path_segs(e)?),
+        syn::Expr::Closure(c) if c.inputs.len() == 1 => {
+            let arg = if let syn::Pat::Ident(i) = &c.inputs[0] { i.ident.to_string() } else { return None };
+            if let syn::Expr::Call(call) = peel(&c.body) {
+                if call.args.len() == 1 && path_segs(&call.args[0]) == Some(vec![arg]) { return variant(path_segs(&call.func)?); }
+            }
+            None
+        }
+        _ => None,
+    }
+}
+/// a text literal handed out as a `String`: `String::new()`, `"lit".to_string()` / `.to_owned()` / `.into()`, `String::from("lit")`
+fn text_literal(e: &syn::Expr) -> Option<String> {
+    match peel(e) {
+        syn::Expr::Call(c) => {
+            let segs = path_segs(&c.func)?;
+            if segs == ["String", "new"] && c.args.is_empty() { return Some(String::new()); }
+            if segs == ["String", "from"] && c.args.len() == 1 { return lit_str(peel(&c.args[0])); }
+            None
+        }
+        syn::Expr::MethodCall(m) if m.args.is_empty() && ["to_string", "to_owned", "into"].contains(&m.method.to_string().as_str()) => lit_str(peel(&m.receiver)),
+        _ => None,
+    }
+}
+/// the normal form of an expression consuming one `env::var("NAME")`; Err = why the shape is not one of the unconditional ones
+fn env_read(e: &syn::Expr) -> Result<(String, Use), String> {
+    let shape = || format!("`{}`", norm(e));
+    match peel(e) {
+        syn::Expr::Try(t) => match peel(&t.expr) {
+            syn::Expr::MethodCall(m) if m.method == "map_err" && m.args.len() == 1 => {
+                let name = env_var_call(&m.receiver).ok_or_else(|| format!("{} is not `env::var(NAME).map_err(Error::X)?`: something stands between the read and `map_err`", shape()))?;
+                let x = error_ctor(&m.args[0]).ok_or_else(|| format!("{}: the argument of map_err is not an `Error::X` constructor", shape()))?;
+                Ok((name, Use::Required(x)))
+            }
+            _ => Err(format!("{} is not `env::var(NAME).map_err(Error::X)?`", shape())),
+        },
+        syn::Expr::MethodCall(m) => {
+            let name = env_var_call(&m.receiver).ok_or_else(|| format!("{}: not a single method applied to `env::var(NAME)`", shape()))?;
+            match (m.method.to_string().as_str(), m.args.len()) {
+                ("ok", 0) => Ok((name, Use::OptionalOk)),
+                ("unwrap_or_default", 0) => Ok((name, Use::Defaulted(String::new()))),
+                ("unwrap_or", 1) => text_literal(&m.args[0]).map(|d| (name, Use::Defaulted(d))).ok_or_else(|| format!("{}: the default is not a text literal", shape())),
+                ("unwrap_or_else", 1) => match peel(&m.args[0]) {
+                    syn::Expr::Closure(c) => text_literal(&c.body).map(|d| (name, Use::Defaulted(d))).ok_or_else(|| format!("{}: the default is not a text literal", shape())),
+                    _ => Err(format!("{}: the default is not a closure returning a text literal", shape())),
+                },
+                _ => Err(format!("{}: `.{}` is not one of map_err(..)? / ok() / unwrap_or..", shape(), m.method)),
+            }
+        }
+        _ => Err(format!("{} is not a read of an environment variable in one of the unconditional shapes", shape())),
+    }
+}
+
+/// every mention of an environment-reading function (or macro) in a piece of syntax
+struct EnvCensus { reads: Vec<String>, imports: Vec<String> }
+impl<'ast> Visit<'ast> for EnvCensus {
+    fn visit_expr_path(&mut self, p: &'ast syn::ExprPath) {
+        let segs: Vec<String> = p.path.segments.iter().map(|s| s.ident.to_string()).collect();
+        if is_env_fn(&segs, &["var", "var_os", "vars", "vars_os", "set_var", "remove_var"]) { self.reads.push(segs.join("::")); }
+        syn::visit::visit_expr_path(self, p);
+    }
+    fn visit_macro(&mut self, m: &'ast syn::Macro) {
+        let n = m.path.segments.last().map(|s| s.ident.to_string()).unwrap_or_default();
+        if n == "env" || n == "option_env" { self.reads.push(format!("{n}!")); }
+        syn::visit::visit_macro(self, m);
+    }
+    fn visit_item_use(&mut self, u: &'ast syn::ItemUse) {
+        // `use std::env::var;` would make a bare `var(..)` a read that the path census cannot see
+        fn walk(t: &syn::UseTree, under_env: bool, out: &mut Vec<String>) {
+            match t {
+                syn::UseTree::Path(p) => walk(&p.tree, under_env || p.ident == "env", out),
+                syn::UseTree::Group(g) => for x in &g.items { walk(x, under_env, out); },
+                syn::UseTree::Name(n) => if under_env { out.push(n.ident.to_string()); },
+                syn::UseTree::Rename(r) => if under_env { out.push(r.ident.to_string()); },
+                syn::UseTree::Glob(_) => if under_env { out.push("*".into()); },
+            }
+        }
+        walk(&u.tree, false, &mut self.imports);
+    }
+}
+
+/// calls of `name()` and how many of them hand their error on (`?`, `.inspect_err(..)?`, `.and_then(..)`)
+struct CallSites<'a> { name: &'a str, calls: usize, propagated: usize }
+impl CallSites<'_> {
+    fn is_call(&self, e: &syn::Expr) -> bool {
+        if let syn::Expr::Call(c) = peel(e) { if let Some(s) = path_segs(&c.func) { return s.last().map(String::as_str) == Some(self.name); } }
+        false
+    }
+}
+impl<'ast> Visit<'ast> for CallSites<'_> {
+    fn visit_expr_call(&mut self, c: &'ast syn::ExprCall) {
+        if path_segs(&c.func).and_then(|s| s.last().cloned()).as_deref() == Some(self.name) { self.calls += 1; }
+        syn::visit::visit_expr_call(self, c);
+    }
+    fn visit_expr_try(&mut self, t: &'ast syn::ExprTry) {
+        let mut inner = peel(&t.expr);
+        while let syn::Expr::MethodCall(m) = inner { if m.method == "inspect_err" { inner = peel(&m.receiver); } else { break; } }
+        if self.is_call(inner) { self.propagated += 1; }
+        syn::visit::visit_expr_try(self, t);
+    }
+    fn visit_expr_method_call(&mut self, m: &'ast syn::ExprMethodCall) {
+        if m.method == "and_then" && self.is_call(&m.receiver) { self.propagated += 1; }
+        syn::visit::visit_expr_method_call(self, m);
+    }
+}
+
+fn lean_var(name: &str) -> Option<&'static str> {
+    Some(match name { "CNB_BUILDPACK_DIR" => "bpDir", "CNB_TARGET_OS" => "os", "CNB_TARGET_ARCH" => "arch", "CNB_TARGET_ARCH_VARIANT" => "variant", "CNB_TARGET_DISTRO_NAME" => "dname", "CNB_TARGET_DISTRO_VERSION" => "dver", _ => return None })
+}
+fn lean_err(variant: &str) -> Option<&'static str> {
+    Some(match variant { "CannotDetermineBuildpackDirectory" => "bpDir", "CannotDetermineTargetOs" => "targetOs", "CannotDetermineTargetArch" => "targetArch", "CannotDetermineTargetDistroName" => "distroName", "CannotDetermineTargetDistroVersion" => "distroVersion", _ => return None })
+}
+fn lean_str(s: &str) -> String { let mut o = String::from("\""); for c in s.chars() { match c { '"' => o.push_str("\\\""), '\\' => o.push_str("\\\\"), '\n' => o.push_str("\\n"), '\t' => o.push_str("\\t"), c => o.push(c) } } o.push('"'); o }
+fn lean_read(item: &str, name: &str, u: &Use, broken: &mut Vec<String>) -> Option<String> {
+    let Some(v) = lean_var(name) else { broken.push(format!("{item}: reads the variable {name}, which the model does not know")); return None; };
+    let u = match u {
+        Use::Required(x) => match lean_err(x) { Some(k) => format!(".required .{k}"), None => { broken.push(format!("{item}: {name} fails with Error::{x}, which the model does not know")); return None; } },
+        Use::OptionalOk => ".optionalOk".to_string(),
+        Use::Defaulted(d) => format!(".defaulted {}", lean_str(d)),
+    };
+    Some(format!("(.{v}, {u})"))
+}
+
+fn env_reads(ctx: &mut Ctx, o: &mut String) {
+    let Some(f) = parse_file(ctx, "libcnb/src/runtime.rs") else { return; };
+    let mut recognised = 0usize;
+    // ---- context_target
+    let item = "contextTargetReads";
+    let fns = find_fns(&f, "context_target");
+    if fns.len() != 1 { ctx.broken.push(format!("{item}: expected exactly one fn context_target in libcnb/src/runtime.rs, found {}", fns.len())); }
+    else {
+        let body = &fns[0];
+        let mut reads: Vec<String> = vec![];
+        let mut ok = true;
+        let n = body.stmts.len();
+        for (k, st) in body.stmts.iter().enumerate() {
+            match st {
+                syn::Stmt::Local(l) => {
+                    let plain_pat = matches!(&l.pat, syn::Pat::Ident(_)) || matches!(&l.pat, syn::Pat::Type(t) if matches!(&*t.pat, syn::Pat::Ident(_)));
+                    match &l.init {
+                        Some(init) if plain_pat && init.diverge.is_none() => match env_read(&init.expr) {
+                            Ok((name, u)) => { recognised += 1; match lean_read(item, &name, &u, &mut ctx.broken) { Some(t) => reads.push(t), None => ok = false } }
+                            Err(why) => { ok = false; ctx.broken.push(format!("{item}: context_target statement {}: {why}", k + 1)); }
+                        },
+                        _ => { ok = false; ctx.broken.push(format!("{item}: context_target statement {} `{}` is not `let <name> = <read>;`", k + 1, norm(st))); }
+                    }
+                }
+                syn::Stmt::Expr(e, None) if k + 1 == n => {
+                    // the tail: `Ok(Target { .. })`, nothing conditional
+                    let good = if let syn::Expr::Call(c) = peel(e) { path_segs(&c.func).map(|s| s == ["Ok"]).unwrap_or(false) && c.args.len() == 1 && matches!(peel(&c.args[0]), syn::Expr::Struct(s) if s.path.segments.last().map(|x| x.ident == "Target").unwrap_or(false) && s.rest.is_none()) } else { false };
+                    if !good { ok = false; ctx.broken.push(format!("{item}: context_target does not end in `Ok(Target {{ .. }})` but in `{}`", norm(e))); }
+                }
+                other => { ok = false; ctx.broken.push(format!("{item}: context_target statement {} `{}` is neither a read nor the final `Ok(Target {{ .. }})`", k + 1, norm(other))); }
+            }
+        }
+        if ok {
+            writeln!(o, "/-- libcnb/src/runtime.rs `context_target`: every `env::var` read in source order and what is done with its result -/\ndef contextTargetReads : List (VarName × EnvUse) :=\n  [{}]\n", reads.join(", ")).unwrap();
+            ctx.items.push("contextTargetReads <- libcnb/src/runtime.rs context_target".into());
+        }
+    }
+    // ---- read_buildpack_dir: `env::var("CNB_BUILDPACK_DIR").map_err(Error::X).map(PathBuf::from)` as the returned Result
+    let item = "buildpackDirRead";
+    let fns = find_fns(&f, "read_buildpack_dir");
+    let mut done = false;
+    if fns.len() == 1 && fns[0].stmts.len() == 1 {
+        if let syn::Stmt::Expr(e, None) = &fns[0].stmts[0] {
+            let mut inner = peel(e);
+            if let syn::Expr::MethodCall(m) = inner { if m.method == "map" && m.args.len() == 1 && path_segs(&m.args[0]).map(|s| s == ["PathBuf", "from"]).unwrap_or(false) { inner = peel(&m.receiver); } }
+            if let syn::Expr::MethodCall(m) = inner {
+                if m.method == "map_err" && m.args.len() == 1 {
+                    if let (Some(name), Some(x)) = (env_var_call(&m.receiver), error_ctor(&m.args[0])) {
+                        recognised += 1;
+                        if let Some(t) = lean_read(item, &name, &Use::Required(x), &mut ctx.broken) {
+                            writeln!(o, "/-- libcnb/src/runtime.rs `read_buildpack_dir` (its callers hand the error on) -/\ndef buildpackDirRead : VarName × EnvUse := {t}\n").unwrap();
+                            ctx.items.push("buildpackDirRead <- libcnb/src/runtime.rs read_buildpack_dir".into());
+                        }
+                        done = true;
+                    }
+                }
+            }
+        }
+    }
+    if !done { ctx.broken.push(format!("{item}: fn read_buildpack_dir is not `env::var(NAME).map_err(Error::X).map(PathBuf::from)`")); }
+    // ---- no other environment read anywhere in runtime.rs
+    let mut census = EnvCensus { reads: vec![], imports: vec![] };
+    census.visit_file(&f);
+    if !census.imports.is_empty() { ctx.broken.push(format!("envReads: libcnb/src/runtime.rs imports {:?} from `env`: bare calls cannot be told from other functions", census.imports)); }
+    if census.reads.len() != recognised {
+        ctx.broken.push(format!("envReads: libcnb/src/runtime.rs mentions {} environment accesses ({}) but only {} are reads in a modelled place and shape", census.reads.len(), census.reads.join(", "), recognised));
+    }
+    // ---- the callers hand the error on
+    for name in ["context_target", "read_buildpack_dir"] {
+        let mut cs = CallSites { name, calls: 0, propagated: 0 };
+        cs.visit_file(&f);
+        if cs.calls == 0 || cs.calls != cs.propagated {
+            ctx.broken.push(format!("envReads: {} of the {} calls of {name}() do not hand their error on with `?` / `.inspect_err(..)?` / `.and_then(..)`", cs.calls - cs.propagated.min(cs.calls), cs.calls));
+        }
+    }
+}
 
 pub fn runtime(ctx: &mut Ctx) -> Option<String> {
     let mut o = String::new();
     writeln!(o, "-- GENERATED by /verif/harness/src/bin/translator/runtime.rs from /repo sources. Do not edit.").unwrap();
-    writeln!(o, "namespace CnbVerif.Gen\n").unwrap();
+    writeln!(o, "import CnbVerif.Model.RuntimeTypes\nnamespace CnbVerif.Gen\nopen CnbVerif.Runtime\n").unwrap();
     let before = ctx.broken.len();
     if let Some(f) = parse_file(ctx, "libcnb/src/lib.rs") {
         let mut found = None;
@@ -27,6 +267,7 @@ pub fn runtime(ctx: &mut Ctx) -> Option<String> {
             None => ctx.broken.push("supportedApi: const LIBCNB_SUPPORTED_BUILDPACK_API is not a `BuildpackApi { major: <int>, minor: <int> }` literal".into()),
         }
     }
+    env_reads(ctx, &mut o);
     writeln!(o, "end CnbVerif.Gen").unwrap();
     if ctx.broken.len() > before { None } else { Some(o) }
 }
